@@ -55,7 +55,7 @@ ASSUMPTIONS = [
     "for that command and nothing on the link says so); SDP has neither framing nor tags, calls after an SDP fault are not made",
     "bounded time = number of driver read calls <= 10 x fault-free device->host length + 1000 (logical, virtual clock)",
 ]
-REQUIRED_COUNTERS = ["memory_lists", "mboot_ops_judged", "mboot_fault_runs", "mboot_calls_after_fault", "mboot_calls_after_fault_succeeded", "mboot_status_mirror", "transcript_ops_checked",
+REQUIRED_COUNTERS = ["memory_lists", "property_reports", "mboot_ops_judged", "mboot_fault_runs", "mboot_calls_after_fault", "mboot_calls_after_fault_succeeded", "mboot_status_mirror", "transcript_ops_checked",
                      "sdp_ops_judged", "sdp_fault_runs", "sdps_files", "sdps_family_switches"]
 CASE_TIMEOUT_S = 600
 WATCHDOG_S = {"quick": 1500, "thorough": 7200}
@@ -658,7 +658,8 @@ def gen_mboot_op(rng, kind, mps, small=False, big=False, mem_choices=(0, 0, 0, M
             n = rng.randrange(0, 10000)
             o.update(addr=gen_addr(rng, C, n), len=n, mem=0)
     elif kind == "erase_all":
-        o["mem"] = core.pick(rng, [0, 0, MD.EXT_MEM_ID, 0x101])
+        # FlashEraseAll takes the memory ID itself: small IDs (QuadSPI 1, FlexSPI NOR 9 ...) travel as given
+        o["mem"] = core.pick(rng, [0, 0, MD.EXT_MEM_ID, 0x101, 1, 9, 8, 0xFF])
     elif kind == "get_property":
         tag = core.pick(rng, [1, 2, 3, 4, 5, 6, 7, 0x0A, 0x0B, 0x0C, 0x0C, 0x0E, 0x0F, 0x10, 0x11, 0x12, 0x12, 0x16, 0x18, 0x19, 0x19, 0x1C, 0x1E, 0x1A, 0x55])
         o.update(tag=tag, index=MD.EXT_MEM_ID if tag == 0x19 and rng.random() < 0.7 else core.pick(rng, [0, 0, 1]))
@@ -1864,6 +1865,7 @@ def cases(tier, seed):
         for k in range(40 if th else 8):
             yield {"kind": "mboot_memory_list", "transport": tr, "k": k}
     yield {"kind": "directed_sdp"}
+    yield {"kind": "property_reports"}
     for tr in ("uart", "usb"):
         for k in range(5000 if th else 500):
             yield {"kind": "mboot_hist", "transport": tr, "k": k}
@@ -1949,6 +1951,50 @@ def _directed_sdp(ctx):
             ops = [{"op": "jump", "addr": ram + 0x40}]
             cands = [("trunc", 3, 0), ("trunc", 1, 0), ("drop", 0, 0)] if tr == "uart" else [("trunc", 0, 3), ("trunc", 0, 1), ("trunc", 0, 4)]
             run_sdp_fault_case(ctx, cfg, ops, ctx.rng, 100, cands=cands)
+
+
+def _property_report_case(ctx, rng):
+    """What a property value is reported as (name, text) depends on the words the device sent, the tag and the family given -
+    not on which families this process decoded for before.  Every (family class, tag, words) is decoded, then decoded again
+    after the others had their turn; the two reports must be the same."""
+    from spsdk.mboot.properties import parse_property_value
+    from spsdk.utils.database import DatabaseManager, get_db, get_families
+
+    fams: dict = {None: None}
+    for f in get_families(DatabaseManager.BLHOST):
+        try:
+            series = get_db(f).get_str(DatabaseManager.BLHOST, "overridden_properties", "")
+        except Exception:  # pylint: disable=broad-except
+            series = ""
+        fams.setdefault(series or "-", f)
+    order = list(fams.values())
+    probes = []
+    for tag in range(0x01, 0x20):
+        for words in ([0], [1], [2], [1024], [0x4B030000], [rng.getrandbits(32)], [rng.getrandbits(32), rng.getrandbits(32)]):
+            probes.append((tag, words))
+
+    def report(tag, words, fam):
+        v = parse_property_value(tag, list(words), family=fam)
+        return None if v is None else (type(v).__name__, getattr(v, "name", None), v.to_str())
+
+    first = {}
+    for rnd in range(3):
+        rng.shuffle(order)
+        for fam in order:
+            for tag, words in probes:
+                try:
+                    r = report(tag, words, fam)
+                except Exception as e:  # pylint: disable=broad-except
+                    r = ("raised", type(e).__name__, "")
+                key = (fam, tag, tuple(words))
+                ctx.count("property_reports")
+                if key not in first:
+                    first[key] = r
+                elif first[key] != r:
+                    ctx.violation("mboot-property-report-depends-on-families-decoded-before",
+                                  {"family": fam, "tag": tag, "words": words, "first_report": first[key], "later_report": r, "round": rnd})
+                    return
+    ctx.ok(["mboot", "property-reports", len(order)], n=len(first), sample={"families": [str(f) for f in order], "probes": len(probes)})
 
 
 def _memory_list_case(ctx, case):
@@ -2045,6 +2091,9 @@ def run_case(case, ctx):  # noqa: C901
         cfg = make_sdp_cfg(rng, case["transport"])
         ops = [gen_sdp_op(rng, rng.choice(SDP_OPS), small=True, uart=case["transport"] == "uart") for _ in range(rng.randrange(1, 4))]
         run_sdp_fault_case(ctx, cfg, ops, rng, case["budget"])
+        return None
+    if kind == "property_reports":
+        _property_report_case(ctx, rng)
         return None
     if kind == "sdps":
         from spsdk.sdp.sdps import SDPS
